@@ -29,7 +29,10 @@ def run(ctx):
     ctx.phase("generate")
     scns = options.gen(ctx, Sample=ctx.q(700, 20000))
     ctx.phase("drive %d scenarios" % len(scns))
-    recs = pmap(options.drive, [(k, s, ctx.seed * 7919 + k) for k, s in enumerate(scns)], chunk=4)
+    items = [(k, s, ctx.seed * 7919 + k) for k, s in enumerate(scns)]
+    # log-cleaning scenarios run under both name tables (plain and dotted target names)
+    items += [(len(scns) + k, s, v + 1) for k, (_, s, v) in enumerate([it for it in items if it[1]["kind"] == "logclean"])]
+    recs = pmap(options.drive, items, chunk=4)
     ctx.phase("validate")
     failed = defs.validate(ctx, recs, module="OptionsTrace", cfg="OptionsTrace.cfg", parts=8)
     byid = {r["id"]: r for r in recs}
